@@ -230,6 +230,7 @@ class Guide:
         self.types = {}          # n -> {'abs', 'bases': [n], 'own': {p: {...}}}
         self.lost = set()        # (owner type n, p): link that went computed->stored holding stored lprops
         self.cardusing = set()   # (owner type n, p): stored single property given a multi USING expression
+        self.orphan_types = set()  # types whose table keeps a column of such a property after it was dropped
 
     def anc(self, n, seen=None):
         seen = seen if seen is not None else []
@@ -280,6 +281,7 @@ class Guide:
                 T.pop(e[1], None)
                 self.lost = {x for x in self.lost if x[0] != e[1]}
                 self.cardusing = {x for x in self.cardusing if x[0] != e[1]}
+                self.orphan_types.discard(e[1])
             elif k == 'RT':
                 T[e[2]] = T.pop(e[1])
                 for t in T.values():
@@ -289,6 +291,7 @@ class Guide:
                             v['tg'] = e[2]
                 self.lost = {(e[2] if a == e[1] else a, p) for a, p in self.lost}
                 self.cardusing = {(e[2] if a == e[1] else a, p) for a, p in self.cardusing}
+                self.orphan_types = {(e[2] if a == e[1] else a) for a in self.orphan_types}
             elif k == 'SA':
                 T[e[1]]['abs'] = e[2]
             elif k == 'AB':
@@ -302,6 +305,8 @@ class Guide:
             elif k == 'DP':
                 T[e[1]]['own'].pop(e[2], None)
                 self.lost.discard((e[1], e[2]))
+                if (e[1], e[2]) in self.cardusing:
+                    self.orphan_types.add(e[1])     # the column outlives the property, nameless
                 self.cardusing.discard((e[1], e[2]))
             elif k == 'RP':
                 T[e[1]]['own'][e[3]] = T[e[1]]['own'].pop(e[2])
@@ -368,6 +373,8 @@ class Guide:
         for (o, p) in self.cardusing:
             if o in self.types:
                 out.add((f'T:T{o}', f'p{p}'))
+        for o in self.orphan_types:
+            out.add((f'T:T{o}', '?'))
         return out
 
 
@@ -611,8 +618,6 @@ RICH_TEMPLATES = [
     ('otd', 'alter type T{T} {{ alter link p{L} {{ on target delete allow; }} }};'),
     ('otd2', 'alter type T{T} {{ alter link p{L} {{ on target delete delete source; }} }};'),
     ('osd', 'alter type T{T} {{ alter link p{L} {{ on source delete delete target; }} }};'),
-    ('lp-constraint', 'alter type T{T} {{ alter link p{L} {{ create property q9: int64; }} }};'),
-    ('lp-drop9', 'alter type T{T} {{ alter link p{L} {{ drop property q9; }} }};'),
     ('abslink', 'create abstract link al{N} {{ create property aq: str; }};'),
     ('abslink-prop', 'alter abstract link al{N} {{ create property aq2: int64; }};'),
     ('abslink-dropprop', 'alter abstract link al{N} {{ drop property aq2; }};'),
@@ -927,6 +932,8 @@ def classify_failure(mon_entry, lost, orphans, clinks=frozenset()):
         return 'C05-F1'
     if kind == 'orphan-column' and (mon_entry[1], mon_entry[2]) in orphans:
         return 'C05-F2'
+    if kind == 'orphan-column' and str(mon_entry[2]).startswith('?') and (mon_entry[1], '?') in orphans:
+        return 'C05-F2'      # the property itself was dropped later: its column has no name any more
     if kind in ('sql-addresses-missing-table', 'sql-addresses-missing-column'):
         text = str(mon_entry[2])
         m = re.match(r'select `default`::`T(\d+)` ', text)
@@ -1230,6 +1237,7 @@ def run(tier):
         'abstain_reasons': abst_hist,
         'model_vs_impl_steps_compared': compared_steps,
         'model_vs_impl_disagreements': len(mism),
+        'model_vs_impl_disagreement_kinds': [[enc_event(model_cases[i][m[0]]), m[1], str(m[2])[:120]] for i, m in mism[:8]],
         'model_vs_impl_first_disagreement': ({'history': [ddl(e) for e in model_cases[mism[0][0]][:mism[0][1][0] + 1]],
                                               'case': enc_case(model_cases[mism[0][0]][:mism[0][1][0] + 1]),
                                               'why': mism[0][1][1], 'impl': str(mism[0][1][2])[:400],
